@@ -17,6 +17,36 @@ def num_eq(a, b):
     return a == b
 
 
+import struct
+
+
+def bits_to_float(b):
+    return struct.unpack("<d", struct.pack("<Q", int(b)))[0]
+
+
+def to_float(x):
+    if isinstance(x, str):
+        return {"nan": math.nan, "inf": math.inf, "-inf": -math.inf, "-0": -0.0}.get(x, None) if x in ("nan", "inf", "-inf", "-0") else float(x)
+    return float(x)
+
+
+def floats_of(t):
+    if t.get("bits") is not None and len(t.get("bits")) > 0:
+        return [bits_to_float(b) for b in t["bits"]]
+    return [to_float(x) for x in (t.get("data") or [])]
+
+
+def float_close(x, y, dt):
+    """tolerance comparison of the transcendental streams (TESTING, not proof): NaN matches NaN,
+    infinities and zeros must agree exactly (zero up to sign handled by callers), else relative"""
+    if math.isnan(x) or math.isnan(y):
+        return math.isnan(x) and math.isnan(y)
+    if math.isinf(x) or math.isinf(y):
+        return x == y
+    rel = 2e-5 if dt == "f32" else 1e-11
+    return abs(x - y) <= rel * max(abs(x), abs(y)) + (1e-30 if dt == "f32" else 1e-300) or abs(x - y) <= (1e-37 if dt == "f32" else 1e-307)
+
+
 def tensor_eq(a, b):
     if a is None or b is None:
         return a is None and b is None
@@ -24,6 +54,14 @@ def tensor_eq(a, b):
         return False
     if list(a.get("shape") or []) != list(b.get("shape") or []):
         return False
+    if a.get("bits") or b.get("bits"):
+        fa, fb = floats_of(a), floats_of(b)
+        if len(fa) != len(fb):
+            return False
+        # absolute slack proportional to the largest finite magnitude in the tensor (cancellation)
+        scale = max([1.0] + [abs(v) for v in fa + fb if math.isfinite(v)])
+        atol = (3e-6 if a.get("dt") == "f32" else 1e-13) * scale
+        return all(float_close(x, y, a.get("dt")) or (math.isfinite(x) and math.isfinite(y) and abs(x - y) <= atol) for x, y in zip(fa, fb))
     da, db = a.get("data") or [], b.get("data") or []
     return len(da) == len(db) and all(num_eq(x, y) for x, y in zip(da, db))
 
@@ -49,6 +87,47 @@ class J:
 
 def mut_norm(m):
     return sorted((x.get("input"), x.get("what"), tuple(x.get("shape") or [])) for x in (m or []))
+
+
+def softmax_props(c):
+    """C09 softmax clause, checked on the implementation's output alone: along the requested axis every
+    Softmax slice is non-negative and sums to 1, LogSoftmax is its logarithm, finite inputs give finite
+    results; off the axis nothing is mixed (lanes are independent: checked by the model comparison)"""
+    x = c["inputs"][0]
+    out = c["impl"]["outs"][0]
+    shape = x["shape"]
+    if list(out["shape"]) != list(shape) or out["dt"] != x["dt"]:
+        return "violates", "shape or element type not preserved"
+    axis = c["p"]["axis"]
+    r = len(shape)
+    ax = axis + r if axis < 0 else axis
+    xs, ys = floats_of(x), floats_of(out)
+    finite_in = all(math.isfinite(v) for v in xs)
+    n = shape[ax]
+    inner = 1
+    for d in shape[ax + 1:]:
+        inner *= d
+    outer = 1
+    for d in shape[:ax]:
+        outer *= d
+    tol = 1e-4 if x["dt"] == "f32" else 1e-10
+    for o in range(outer):
+        for i in range(inner):
+            lane_x = [xs[(o * n + k) * inner + i] for k in range(n)]
+            lane = [ys[(o * n + k) * inner + i] for k in range(n)]
+            if not all(math.isfinite(v) for v in lane_x):
+                continue
+            if c["op"] == "Softmax":
+                if any((not math.isfinite(v)) or v < 0 for v in lane):
+                    return "violates", f"Softmax slice not finite/non-negative for finite input {lane_x[:4]} -> {lane[:4]}"
+                if abs(sum(lane) - 1) > tol:
+                    return "violates", f"Softmax slice sums to {sum(lane)}"
+            else:
+                if any(math.isnan(v) or v == math.inf or v > 1e-6 for v in lane):
+                    return "violates", f"LogSoftmax not finite / positive for finite input {lane_x[:4]} -> {lane[:4]}"
+                if abs(sum(math.exp(min(v, 0.0)) for v in lane) - 1) > tol:
+                    return "violates", f"exp(LogSoftmax) slice sums to {sum(math.exp(v) for v in lane)}"
+    return "holds", ""
 
 
 def judge_op(c):
@@ -95,6 +174,8 @@ def judge_op(c):
                 verdict, what = "violates", "computed something else than the ONNX value instead of refusing"
         if verdict != "violates" and spec.get("pure") and impl.get("mut"):
             verdict, what = "violates", f"input modified: {impl.get('mut')}"
+    if verdict == "unjudged" and c.get("op") in ("Softmax", "LogSoftmax") and impl["status"] == "ok" and c.get("p", {}).get("props"):
+        verdict, what = softmax_props(c)
     tag = None
     if verdict == "violates":
         cls = "panic" if impl["status"] == "panic" else ("error" if impl["status"] == "error" else
